@@ -336,3 +336,12 @@ Theorem C19_model_meets_spec_crc : forall lookup mint local remotes target creds
   current_token_forwarded local None aca (Some t) = false.
 Proof. exact model_meets_spec_crc. Qed.
 Print Assumptions C19_model_meets_spec_crc.
+
+(* keepstore remoteProxy.Get at the wire: the secrets judged are the caller's -- the long secret of an unsalted
+   v2 token, or a legacy token as a whole *)
+Theorem C19_ks_secrets_are_the_callers : forall token s,
+  In s (ks_secrets token) <->
+  ((exists uuid, v2_fields token uuid s /\ is_salted_secret s = false /\ 40 < String.length s /\ contains s uuid = false) \/
+   (not_v2 token /\ is_obsolete token = true /\ s = token)).
+Proof. exact ks_secrets_spec. Qed.
+Print Assumptions C19_ks_secrets_are_the_callers.
